@@ -1141,3 +1141,31 @@ Theorem C06_splice_exclusions_refuted :
   /\ (exists u', set_host true ex_hp ex_hp ex_hd qx_u (Some []) = Some (u', SOk) /\ ~ empty_host_ok qx_u u').
 Proof. exact splice_exclusions_refuted. Qed.
 Print Assumptions C06_splice_exclusions_refuted.
+
+(* 24. the removal of the password: set_password(None) and set_password(Some "") (pw_arg_empty) on a canonical record -
+   the serialization of the result is the old one with ":password" cut out, and the '@' too when the user name is empty
+   (cut_password, read off the record; the old text itself when there was no password), and Parser::parse_url on that
+   text returns exactly the setter's record.  No exclusion.  (set_username("") is an instance of
+   C06_splice_agreement_set_username.) *)
+From RU Require Import Proofs.C02_SetCred Proofs.C06_SpliceNonePw.
+
+Theorem C06_splice_agreement_remove_password : forall dbg hp hpo hd u pw u', HostRT hp hpo hd -> Canon hp hpo hd u ->
+  pw_arg_empty pw -> set_password dbg u pw = Some (u', SOk) -> nlen (ser u') <= U32_MAX_P ->
+  ser u' = cut_password u /\ parse_url dbg hp hpo hd None None (cut_password u) = POk u'.
+Proof. intros dbg hp hpo hd u pw u' HRT. exact (splice_agreement_remove_password dbg hp hpo hd HRT u pw u'). Qed.
+Check C06_splice_agreement_remove_password : forall dbg hp hpo hd u pw u', HostRT hp hpo hd -> Canon hp hpo hd u ->
+  pw_arg_empty pw -> set_password dbg u pw = Some (u', SOk) -> nlen (ser u') <= U32_MAX_P ->
+  ser u' = cut_password u /\ parse_url dbg hp hpo hd None None (cut_password u) = POk u'.
+Print Assumptions C06_splice_agreement_remove_password.
+
+(* on "http://u:p@h/p" the cut text is "http://u@h/p"; after set_username("") ("http://:p@h/p") it is "http://h/p" *)
+Example C06_splice_agreement_remove_password_inhabited :
+  pw_arg_empty None /\ pw_arg_empty (Some [])
+  /\ (exists u', set_password true sx_u None = Some (u', SOk) /\ cut_password sx_u = B "http://u@h/p")
+  /\ (exists u1 u', set_username true sx_u [] = Some (u1, SOk) /\ ser u1 = B "http://:p@h/p"
+        /\ set_password true u1 (Some []) = Some (u', SOk) /\ cut_password u1 = B "http://h/p").
+Proof.
+  split; [exact I|]. split; [exact I|].
+  split; [eexists; split; vm_compute; reflexivity|].
+  eexists. eexists. split; [vm_compute; reflexivity|]. split; [vm_compute; reflexivity|]. split; vm_compute; reflexivity.
+Qed.
